@@ -1,6 +1,8 @@
 mod util;
 mod fees;
 mod numeric;
+mod mk;
+mod deposits;
 
 fn main() {
     let argv: Vec<String> = std::env::args().collect();
@@ -13,6 +15,7 @@ fn main() {
     match argv[1].as_str() {
         "fees" => fees::main(&a),
         "numeric" => numeric::main(&a),
+        "deposits" => deposits::main(&a),
         d => {
             eprintln!("unknown driver {}", d);
             std::process::exit(2);
